@@ -431,6 +431,17 @@ def _frame_bindings(path: Path, index: int):
     found = None
     for pos in range(index - 1, -1, -1):
         other = path.events[pos]
+        if other.kind == 'ctx-enter' and other.data.get('fid') != fid and \
+                pos + 1 < len(path.events) and \
+                path.events[pos + 1].data.get('fid') == fid:
+            # a generator context manager run in place: `with f(a, b):`
+            callee = other.data.get('callee')
+            for item in getattr(other.node, 'items', ()):
+                call = item.context_expr
+                if isinstance(call, ast.Call) and callee is not None and \
+                        ast.unparse(call.func).split('.')[-1] == callee.fn.name:
+                    found = _bind_call(call, callee.fn, pos)
+            break
         if other.kind == 'enter' and other.data.get('fid') != fid and \
                 pos + 1 < len(path.events) and \
                 path.events[pos + 1].data.get('fid') == fid:
@@ -483,9 +494,11 @@ def value_expr(path: Path, index: int, expr, depth: int = 12, keep_clock: bool =
     original = {id(c): o for o, c in zip(ast.walk(expr), ast.walk(tree))}
     fid = event.data.get('fid') if event is not None else (
         path.events[-1].data.get('fid') if path.events else None)
+    mgr = event.data.get('mgr') if event is not None else None
     if frame is not None:
         # evaluate inside an inlined helper's frame (its return expression)
         fid, bind, fn = frame
+        mgr = None
 
     def returned_by_helper(source):
         """the value an inlined helper returned for this call on this path"""
@@ -506,6 +519,17 @@ def value_expr(path: Path, index: int, expr, depth: int = 12, keep_clock: bool =
         return None
 
     class Sub(ast.NodeTransformer):
+        def visit_Attribute(self, node):
+            # an attribute of a context manager object whose __enter__/__exit__ runs in
+            # place: what was stored in it, down to the constructor's arguments
+            if mgr is not None and depth > 0 and isinstance(node.value, ast.Name) and \
+                    node.value.id == 'self' and isinstance(node.ctx, ast.Load):
+                found = _manager_field(path, index, mgr, node.attr, depth - 1, keep_clock,
+                                       keep, trace)
+                if found is not None:
+                    return found
+            return self.generic_visit(node)
+
         def visit_IfExp(self, node):
             # the branch taken on this path, when the test was observed
             source = original.get(id(node))
@@ -590,6 +614,114 @@ def value_expr(path: Path, index: int, expr, depth: int = 12, keep_clock: bool =
             return node
 
     return Sub().visit(tree)
+
+
+def _manager_field(path: Path, index: int, mgr, attr: str, depth, keep_clock, keep, trace):
+    """
+    the value of ``self.<attr>`` of a context manager object (``mgr`` = position of its
+    with-enter event, the expression that made it, its class): the latest store into that
+    attribute by __enter__/__exit__ run in place for the same ``with``; else what the
+    constructor stores there, in terms of the constructor's arguments at the ``with``
+    """
+    with_pos, ctor, cls_qn = mgr
+    for pos in range(min(index, len(path.events)) - 1, with_pos, -1):
+        seen = path.events[pos]
+        if seen.kind == 'store' and seen.data.get('mgr') is not None and \
+                seen.data['mgr'][0] == with_pos and isinstance(seen.node, ast.Attribute) and \
+                seen.node.attr == attr and isinstance(seen.node.value, ast.Name) and \
+                seen.node.value.id == 'self' and seen.data.get('aug') is None:
+            value = seen.data.get('value')
+            if value is None:
+                return None
+            if trace is not None:
+                trace.append(pos)
+            return value_expr(path, pos, value, depth, keep_clock, keep, trace=trace)
+    # the constructor: `self.attr = <expr over its parameters>` in a straight-line __init__
+    program = path.events[with_pos].fn.module.program
+    made = _constructed(program, path, with_pos, ctor, cls_qn)
+    if made is None:
+        return None
+    init, bound = made
+    stores = [n for n in init.node.body if isinstance(n, ast.Assign) and len(n.targets) == 1
+              and isinstance(n.targets[0], ast.Attribute) and n.targets[0].attr == attr
+              and isinstance(n.targets[0].value, ast.Name) and n.targets[0].value.id == 'self']
+    if len(stores) != 1 or any(isinstance(n, (ast.If, ast.For, ast.While, ast.Try, ast.With))
+                               for n in init.node.body):
+        return None
+    import copy
+
+    class Bind(ast.NodeTransformer):
+        def visit_Name(self, node):
+            if isinstance(node.ctx, ast.Load) and node.id in bound:
+                return copy.deepcopy(bound[node.id])
+            return node
+    value = Bind().visit(copy.deepcopy(stores[0].value))
+    if any(isinstance(n, ast.Name) and n.id == 'self' and not any(
+            n is m for b in bound.values() for m in ast.walk(b)) for n in ast.walk(value)):
+        pass  # `self` here can only come from the arguments (bound copies)
+    for fresh in ast.walk(value):
+        if isinstance(fresh, ast.expr) and not hasattr(fresh, 'lineno'):
+            ast.copy_location(fresh, ctor)
+    if trace is not None:
+        trace.append(with_pos)
+    return value_expr(path, with_pos, value, depth, keep_clock, keep, trace=trace)
+
+
+def _constructed(program, path: Path, with_pos: int, ctor, cls_qn: str):
+    """(__init__ of the manager class, its parameters bound to expressions of the ``with``
+    statement's frame): for ``with K(a, b)`` directly, or for ``with f(x)`` where the one
+    function called only returns ``K(...)``"""
+    init = program.find_method(cls_qn, '__init__')
+    if init is None or not isinstance(ctor, ast.Call):
+        return None
+    call, outer = ctor, {}
+    binding = program.resolve_dotted(path.events[with_pos].fn.module, ctor.func) \
+        if isinstance(ctor.func, (ast.Name, ast.Attribute)) else None
+    if not (binding and binding[0] == 'class' and binding[1] == cls_qn):
+        # a factory: the call event of the context expression names the function
+        factory = None
+        for pos in range(with_pos - 1, max(with_pos - 12, -1), -1):
+            seen = path.events[pos]
+            if seen.kind == 'call' and seen.node is ctor:
+                callees = seen.data.get('callees') or []
+                if len(callees) == 1:
+                    factory = callees[0].fn
+                break
+            if seen.kind == 'enter' and seen.node is ctor and seen.data.get('callee'):
+                factory = seen.data['callee'].fn  # the factory itself was run in place
+                break
+        if factory is None or isinstance(factory.node, ast.Lambda):
+            return None
+        stmts = [n for n in factory.node.body
+                 if not (isinstance(n, ast.Expr) and isinstance(n.value, ast.Constant))]
+        if len(stmts) != 1 or not isinstance(stmts[0], ast.Return) or \
+                not isinstance(stmts[0].value, ast.Call):
+            return None
+        outer = {name: arg for name, (arg, _p) in _bind_call(ctor, factory, 0).items()}
+        if factory.cls is not None and not factory.is_static and \
+                isinstance(ctor.func, ast.Attribute):
+            first = (factory.node.args.posonlyargs + factory.node.args.args)[0].arg
+            outer[first] = ctor.func.value
+        call = stmts[0].value
+    import copy
+    bound = {}
+    params = (init.node.args.posonlyargs + init.node.args.args)[1:]
+    for param, arg in zip(params, call.args):
+        if isinstance(arg, ast.Starred):
+            return None
+        bound[param.arg] = arg
+    for kw in call.keywords:
+        if kw.arg is None:
+            return None
+        bound[kw.arg] = kw.value
+    if outer:
+        class Outer(ast.NodeTransformer):
+            def visit_Name(self, node):
+                if isinstance(node.ctx, ast.Load) and node.id in outer:
+                    return copy.deepcopy(outer[node.id])
+                return node
+        bound = {name: Outer().visit(copy.deepcopy(arg)) for name, arg in bound.items()}
+    return init, bound
 
 
 def _loop_element(path: Path, pos: int, store: Event, depth, keep_clock, keep, trace):
